@@ -74,9 +74,11 @@ class MemoryStorageBackend(StorageBackend):
         results = []
         for fn_ref_with_arg_hash in fns:
             try:
-                memento_dict = self.mementos[
-                    fn_ref_with_arg_hash.fn_reference.qualified_name
-                ]
+                # Use .get(): indexing the defaultdict would create an empty entry that
+                # list_functions() then reports as a memoized function
+                memento_dict = self.mementos.get(
+                    fn_ref_with_arg_hash.fn_reference.qualified_name, {}
+                )
                 memento = memento_dict.get(fn_ref_with_arg_hash.arg_hash)
             except FunctionNotFoundError:
                 memento = None
@@ -101,7 +103,7 @@ class MemoryStorageBackend(StorageBackend):
     ) -> bytes:
         # Ignore retry_on_none since the in-memory metadata store is consistent.
         memento_key = self._get_memento_key(fn_with_arg_hash)
-        metadata_dict = self.metadata[memento_key]  # type: Dict[str, bytes]
+        metadata_dict = self.metadata.get(memento_key, {})  # type: Dict[str, bytes]
         return metadata_dict.get(key)
 
     def write_metadata(
@@ -135,7 +137,7 @@ class MemoryStorageBackend(StorageBackend):
         ]
 
     def list_mementos(self, fn: FunctionReference, limit: int = None) -> List[Memento]:
-        return list(self.mementos[fn.qualified_name].values())[0:limit]
+        return list(self.mementos.get(fn.qualified_name, {}).values())[0:limit]
 
     def memoize(self, key_override: str, memento: Memento, result: object) -> None:
         if self.read_only:
@@ -159,9 +161,13 @@ class MemoryStorageBackend(StorageBackend):
         qualified_name = fn_with_arg_hash.fn_reference.qualified_name
         arg_hash = fn_with_arg_hash.arg_hash
         memento_key = qualified_name + "/" + arg_hash
-        memento_dict = self.mementos[qualified_name]
-        if arg_hash in memento_dict:
-            del memento_dict[arg_hash]
+        memento_dict = self.mementos.get(qualified_name)
+        if memento_dict is not None:
+            if arg_hash in memento_dict:
+                del memento_dict[arg_hash]
+            if not memento_dict:
+                # Last call of this function forgotten: it is no longer memoized
+                del self.mementos[qualified_name]
         if memento_key in self.result:
             del self.result[memento_key]
         if memento_key in self.metadata:
@@ -182,7 +188,7 @@ class MemoryStorageBackend(StorageBackend):
             self.forget_call(
                 memento.invocation_metadata.fn_reference_with_args.fn_reference_with_arg_hash()
             )
-        self.mementos[qualified_name].clear()
+        self.mementos.pop(qualified_name, None)
 
     def to_dict(self):
         config = {"type": "memory"}
